@@ -419,6 +419,11 @@ class C05(Prop):
         if case.get("ext"):
             return []          # global / nonlocal / del: unclaimed extension, explored (K) but not judged
         fails = []
+        # names listed in `__all__ = [...]` are looked up by a star-importer, not by this run: not judged for precision
+        exported = set()
+        for st in G.walk_stmts(G.all_stmts(case["prog"])):
+            if st[0] == "assign" and st[1] == [["name", "__all__"]] and st[2][0] in ("list", "tuple"):
+                exported |= {e[1] for e in st[2][1] if e[0] == "str"}
         for i, r in enumerate(runs):
             for variant, rep in (("ast", r["report"]), ("code", r["report_code"])):
                 if isinstance(rep, dict):
@@ -434,7 +439,7 @@ class C05(Prop):
                     for d in rep:
                         parts = d.split(".")
                         pre = {".".join(parts[:k]) for k in range(2, len(parts) + 1)}
-                        if parts[0] not in r["ne"] and not (pre & set(r["ae"])):
+                        if parts[0] not in r["ne"] and not (pre & set(r["ae"])) and d not in exported:
                             fails.append(dict(what="reported name whose lookups all succeed", variant=variant, name=d, run=i,
                                               src=obs["src"], ns=r["nsspec"], loaded=r["loaded"], report=rep))
             if not r["ns_unchanged"]:
